@@ -1,11 +1,202 @@
-/- Driver for C02 (stub — not built yet) -/
+/-
+Driver for C02 / C10 / C11: replays a runtime session transcript through the runtime model
+(`Rt`, Model/Rt.lean) over the calendar-queue model (the case's own n,t) and over the abstract
+event set — the definitions the theorems in Props/C02, C10, C11 are about.
+-/
+import Desverif.Model.Rt
 import Driver.Common
 namespace Driver.C02
-open Driver
+open Driver Rt
 
-def main (stdin : IO.FS.Stream) : IO Unit := do
+/-! limit expressions: none | ec:N | st:N | and(A,B) | or(A,B) -/
+
+def takeDigits : List Char → List Char × List Char
+  | c :: cs => if c.isDigit then let (d, r) := takeDigits cs; (c :: d, r) else ([], c :: cs)
+  | [] => ([], [])
+
+def stripPrefix (p : String) (s : List Char) : Option (List Char) :=
+  let pl := p.toList
+  if s.take pl.length = pl then some (s.drop pl.length) else none
+
+def parseLimitAux : Nat → List Char → Option (Limit × List Char)
+  | 0, _ => none
+  | fuel + 1, s =>
+    match stripPrefix "none" s with
+    | some r => some (.none, r)
+    | none =>
+    match stripPrefix "ec:" s with
+    | some r => let (d, r') := takeDigits r; (String.ofList d).toNat?.map (fun n => (.eventCount n, r'))
+    | none =>
+    match stripPrefix "st:" s with
+    | some r => let (d, r') := takeDigits r; (String.ofList d).toNat?.map (fun n => (.simTime n, r'))
+    | none =>
+    let bin (mk : Limit → Limit → Limit) (r : List Char) : Option (Limit × List Char) :=
+      match parseLimitAux fuel r with
+      | some (a, ',' :: r1) =>
+        match parseLimitAux fuel r1 with
+        | some (b, ')' :: r2) => some (mk a b, r2)
+        | _ => none
+      | _ => none
+    match stripPrefix "and(" s with
+    | some r => bin .and r
+    | none =>
+    match stripPrefix "or(" s with
+    | some r => bin .or r
+    | none => none
+
+def parseLimit (s : String) : Option Limit :=
+  match parseLimitAux 64 s.toList with
+  | some (l, []) => some l
+  | _ => none
+
+def parseAct (tok : String) : Option Act :=
+  match tok.toList with
+  | sign :: rest =>
+    if sign = '+' || sign = '-' then
+      match (String.ofList rest).splitOn ":" with
+      | [d, c] => match d.toNat?, c.toNat? with
+        | some d, some c => some ⟨sign = '-', d, c⟩
+        | _, _ => none
+      | _ => none
+    else none
+  | [] => none
+
+def setNode (prog : Prog) (i : Nat) (acts : List Act) : Prog :=
+  let prog := if prog.length ≤ i then prog ++ List.replicate (i + 1 - prog.length) [] else prog
+  prog.set i acts
+
+def showObs : Obs → String
+  | .handled n t => s!"h {n} {t}"
+  | .sched n t ok => s!"a {n} {t} {if ok then "ok" else "rej"}"
+  | .internal => "internal"
+
+def showPaused (p : Paused) : String := s!"p itr={p.itr} now={p.now} rem={p.remaining} sched={p.scheduled}"
+
+def showRem (l : List (Nat × Nat)) : String :=
+  if l.isEmpty then "-" else ",".intercalate (l.map fun (n, t) => s!"{n}@{t}")
+
+structure Parsed where
+  n : Nat := 0
+  t : Nat := 0
+  start : Nat := 0
+  limit : Limit := .none
+  prog : Prog := []
+  cmds : List Cmd := []
+  implLines : List String := []   -- the implementation's observation lines, flat
+
+def parseCase (c : Case) : Except String Parsed := do
+  let h := words c.header
+  let mut p : Parsed := { n := (kvNat h "n").getD 0, t := (kvNat h "t").getD 0, start := (kvNat h "start").getD 0 }
+  for line in c.body do
+    if line.startsWith "end" then continue
+    if line.startsWith ">" then
+      p := { p with implLines := p.implLines ++ [(line.drop 1).trimAscii.toString] }
+      continue
+    match words line with
+    | ["builder", "max_itr", v] =>
+      match v.toNat? with
+      | some v => p := { p with limit := p.limit.add (.eventCount v) }
+      | none => throw s!"bad line {line}"
+    | ["builder", "max_time", v] =>
+      match v.toNat? with
+      | some v => p := { p with limit := p.limit.add (.simTime v) }
+      | none => throw s!"bad line {line}"
+    | ["builder", "limit", e] =>
+      match parseLimit e with
+      | some l => p := { p with limit := p.limit.add l }
+      | none => throw s!"bad limit {e}"
+    | "node" :: id :: acts =>
+      match id.toNat? with
+      | some id => p := { p with prog := setNode p.prog id (acts.filterMap parseAct) }
+      | none => throw s!"bad line {line}"
+    | ["add", time, node] =>
+      match time.toNat?, node.toNat? with
+      | some time, some node => p := { p with cmds := p.cmds ++ [.add time node] }
+      | _, _ => throw s!"bad line {line}"
+    | ["stepn", k] =>
+      match k.toNat? with
+      | some k => p := { p with cmds := p.cmds ++ [.stepN k] }
+      | none => throw s!"bad line {line}"
+    | ["until", t] =>
+      match t.toNat? with
+      | some t => p := { p with cmds := p.cmds ++ [.stepUntil t] }
+      | none => throw s!"bad line {line}"
+    | ["run"] => p := { p with cmds := p.cmds ++ [.runAll] }
+    | _ => throw s!"bad line {line}"
+  return p
+
+def fuel : Nat := 200000
+
+/-- all observation lines the model predicts for the session, plus statistics -/
+def modelLines {σ : Type} (E : ES σ) (es0 : σ) (p : Parsed) : List String :=
+  let (s, outs) := execCmds E p.prog fuel (build es0 p.start p.limit) p.cmds
+  let body := outs.flatMap fun (os, pz) => os.map showObs ++ [showPaused pz]
+  let rem := drain E fuel s.es
+  body ++ [s!"fin time={s.now} count={s.itr} rem={showRem rem}"]
+
+structure Stats where
+  ties : Nat := 0
+  rejects : Nat := 0
+  cutInTie : Nat := 0
+  addPaused : Nat := 0
+  limitStop : Nat := 0
+  handled : Nat := 0
+
+def stats (p : Parsed) : Stats := Id.run do
+  -- computed on the abstract run
+  let mut st : Stats := {}
+  let mut s := build FES.init p.start p.limit
+  let mut last : Option Nat := none
+  let mut stepped := false
+  for c in p.cmds do
+    let (s', os) := execCmd fesES p.prog fuel s c
+    for o in os do
+      match o with
+      | .handled _ t =>
+        if last == some t then st := { st with ties := st.ties + 1 }
+        last := some t
+        st := { st with handled := st.handled + 1 }
+      | .sched _ _ false => st := { st with rejects := st.rejects + 1 }
+      | _ => pure ()
+    match c with
+    | .add .. => if stepped then st := { st with addPaused := st.addPaused + 1 }
+    | .stepN _ | .stepUntil _ =>
+      stepped := true
+      if FES.nextTime s'.es == some s'.now && s'.itr > 0 then st := { st with cutInTie := st.cutInTie + 1 }
+    | .runAll => if FES.len s'.es > 0 then st := { st with limitStop := st.limitStop + 1 }
+    s := s'
+  return st
+
+def firstDiff : List String → List String → Nat → Option (Nat × String × String)
+  | [], [], _ => none
+  | a :: as, b :: bs, i => if a = b then firstDiff as bs (i + 1) else some (i, a, b)
+  | a :: _, [], i => some (i, a, "<missing>")
+  | [], b :: _, i => some (i, "<missing>", b)
+
+def runCase (prop : String) (c : Case) : String :=
+  let id := ((words c.header)[1]?).getD "?"
+  match parseCase c with
+  | .error e => s!"fail {id} op=0 kind=badcase detail={e}"
+  | .ok p =>
+    if p.n = 0 || p.t = 0 then s!"fail {id} op=0 kind=badcase detail=n-or-t-zero" else
+    let spec := modelLines fesES FES.init p
+    let model := modelLines cqES (CQ.init p.n p.t) p
+    match firstDiff spec p.implLines 1 with
+    | some (i, s, im) => s!"fail {id} op={i} kind=reject spec=[{s}] impl=[{im}]"
+    | none =>
+      match firstDiff model p.implLines 1 with
+      | some (i, m, im) => s!"fail {id} op={i} kind=diverge model=[{m}] impl=[{im}]"
+      | none =>
+        let st := stats p
+        let nt :=
+          if prop = "c10" then st.cutInTie > 0 || st.addPaused > 0
+          else if prop = "c11" then st.limitStop > 0 && st.handled > 0
+          else st.ties > 0 && (st.rejects > 0 || p.start > 0)
+        s!"ok {id} nt={if nt then 1 else 0} handled={st.handled} ties={st.ties} rejects={st.rejects} cutInTie={st.cutInTie} addPaused={st.addPaused} limitStop={st.limitStop}"
+
+def main (prop : String) (stdin : IO.FS.Stream) : IO Unit := do
   let cases ← readCases stdin
   for c in cases do
-    IO.println s!"fail {(words c.header)[1]?.getD "?"} op=0 kind=unimplemented"
+    IO.println (runCase prop c)
 
 end Driver.C02
